@@ -21,7 +21,8 @@ def staged_corpus(rng, n):
 
 
 def corpus(ctx):
-    gs = [gen_graph.theory_example(), gen_graph.cached_walk_rejoin_example()] + gen_graph.incompatibility_chain_family()
+    gs = [gen_graph.theory_example(), gen_graph.cached_walk_rejoin_example(), gen_graph.cycle_cross_edge_example()]
+    gs += [gen_graph.with_floating_roots(g, v) for g in gs[:2] for v in (0, 1)] + gen_graph.incompatibility_chain_family()
     if ctx.quick:
         gs += list(gen_graph.exhaustive_family(4, max_inc=1))
         rng = ctx.rng('graph')
